@@ -52,6 +52,24 @@ def run(res, a):
                 viol.append(("state after tick %d differs when %d simulations of the machine run concurrently" % (t, q["conc"]), q))
                 break
         pairs.append((q["sim"], r["base"]))
+    # the report of a complete single-shot simulation must not depend on the run either (output order, values)
+    rep_reqs = []
+    for k in range(3 if a.tier == "quick" else 12):
+        nout = rnd.choice([3, 4, 5])
+        prog = []
+        for o in range(nout):
+            prog += ["rset r0 %d" % rnd.randrange(1, 200), "r2owa r0 o%d" % o, "nop", "nop"]   # the run ends when the last output is valid
+        prog.append("j %d" % len(prog))
+        spec = {"rsize": 8, "procs": [{"arch": {"R": 1, "N": 0, "M": nout, "L": 0, "O": 6, "ops": ["rset", "r2owa", "j", "nop"], "mode": "ha", "rsize": 8},
+                                        "prog": prog}], "inputs": 0, "outputs": nout, "bonds": [["o%d" % o, "p0o%d" % o] for o in range(nout)]}
+        rep_reqs.append({"bm": spec, "call": "single", "n": 25, "conc": 0, "input": []})
+    rep = C.jsonl(C.sh([C.BMH, "c17"], input="".join(json.dumps(r) + "\n" for r in rep_reqs), timeout=1800).stdout)
+    for q, r in zip(rep_reqs, rep):
+        res.count_case(q, nontrivial=True)
+        if r.get("err"):
+            viol.append(("SinglePipelineSimulate fails: %s" % r["err"], {"sim": q}))
+        elif len(r.get("distinct") or []) > 1:
+            viol.append(("25 runs of SinglePipelineSimulate on one machine give different reports: %s" % r["distinct"][:3], {"sim": q}))
     bad, compared = simlib.model_mismatches("C09", pairs)
     race = None
     if a.tier == "thorough":
